@@ -617,6 +617,78 @@ func arbitraryContents(c *checker) {
 	}
 }
 
+// largeBooks: books of 999 .. 2003 peers (sizes around 1000 and 2000) with scores spread over the
+// query bounds: every range query must return exactly the peers in range, each once, and Save +
+// Load into a fresh instance must answer the same.
+func largeBooks(c *checker) {
+	for _, size := range []int{999, 1000, 1001, 1002, 2000, 2001, 2002, 2003} {
+		store := vstore.New()
+		repo := bitcoin_reader.NewPeerRepository(store, "")
+		ctx := context.Background()
+		scores := map[string]int32{}
+		for i := 0; i < size; i++ {
+			addr := fmt.Sprintf("peer-%05d", i)
+			repo.Add(ctx, addr)
+			d := int32(i%11) - 5 // -5..5
+			if d != 0 {
+				repo.UpdateScore(ctx, addr, d)
+			}
+			scores[addr] = d
+		}
+		check := func(r *bitcoin_reader.StoragePeerRepository, what string) bool {
+			for _, min := range scoreBounds {
+				for _, max := range scoreBounds {
+					var l bitcoin_reader.PeerList
+					if p := safe(func() { l, _ = r.Get(ctx, min, max) }); p != "" {
+						c.fail("panic", "large-book-get", p)
+						return false
+					}
+					c.n++
+					want := 0
+					for _, sc := range scores {
+						if sc >= min && (max == -1 || sc <= max) {
+							want++
+						}
+					}
+					seen := map[string]bool{}
+					for _, pr := range l {
+						sc, known := scores[pr.Address]
+						if !known || seen[pr.Address] || sc < min || (max != -1 && sc > max) {
+							c.fail("large-book-range", what, fmt.Sprintf("book of %d peers (%s): Get(%d,%d) returned %s (score %d) wrongly or twice", size, what, min, max, pr.Address, sc))
+							return false
+						}
+						seen[pr.Address] = true
+					}
+					if len(l) != want {
+						c.fail("large-book-range", what+"|count", fmt.Sprintf("book of %d peers (%s): Get(%d,%d) returned %d peers, %d are in range", size, what, min, max, len(l), want))
+						return false
+					}
+				}
+			}
+			return true
+		}
+		c.cnt["large_books"]++
+		if !check(repo, "as built") {
+			return
+		}
+		if err := repo.Save(ctx); err != nil {
+			c.fail("large-book-save", "", err.Error())
+			return
+		}
+		again := bitcoin_reader.NewPeerRepository(store, "")
+		if err := again.Load(ctx); err != nil {
+			c.fail("large-book-load", "", err.Error())
+			return
+		}
+		if again.Count() != size || !check(again, "after Save and Load") {
+			if again.Count() != size {
+				c.fail("large-book-count", "", fmt.Sprintf("book of %d peers holds %d after Save and Load", size, again.Count()))
+			}
+			return
+		}
+	}
+}
+
 func main() {
 	tier := flag.String("tier", "quick", "quick|thorough")
 	_ = flag.String("prop", "C20", "")
@@ -670,6 +742,7 @@ func main() {
 		all = append(all, vs...)
 	}
 	c := &checker{cnt: map[string]int{}}
+	largeBooks(c)
 	arbitraryContents(c)
 	all = append(all, c.vs...)
 	total.Checks += c.n
